@@ -644,6 +644,7 @@ def dl_table(cpp, hpp, cls, regions):
     # reads of the data members of the function table: (reader, member)
     #   constructor `this->x = functions->x;`, `get_name` (`functions->name`, checked above), inline getters of
     #   dl-problem.hpp `length_t get_X() const { return functions->X; }`
+    inline = []
     reads = [('<ctor>:' + a, b) for a, b in re.findall(r'this->(' + ID + r')\s*=\s*functions->(' + ID + r')\s*;', body)]
     if 'get_name' in defs:
         reads.append(('get_name', 'name'))
@@ -656,6 +657,8 @@ def dl_table(cpp, hpp, cls, regions):
             reads.append((n, mm.group(1)))
         elif 'functions->' in fl:
             raise TErr(f'{cls}::{n} (dl-problem.hpp): unrecognised inline use of the function table {{ {fl} }}')
+        elif n != 'call_extra_func':
+            inline.append((n, fl))
     # every other mention of the table in the constructor is one of the recognised forms
     n_deref = len(re.findall(r'functions->', body))
     n_ctor_reads = sum(1 for r in reads if r[0].startswith('<ctor>:'))
@@ -666,7 +669,7 @@ def dl_table(cpp, hpp, cls, regions):
                    '(data-member copies and guarded initialize_* calls)')
     regions[cls] = {'forwarded': len(fwd), 'provides': len(prov), 'ctor_steps': [s for _, s in steps],
                     'own': own, 'hash': cp.ast_hash([fwd, prov, steps, init, reads, own])}
-    return fwd, prov, [s for _, s in steps], init, declared, reads, own
+    return fwd, prov, [s for _, s in steps], init, declared, reads, own, inline
 
 
 def abi_members(h, struct):
@@ -774,6 +777,147 @@ def emit_dispatch(name, ds):
     return f'def {name} : List TEDispatch := [\n' + ',\n'.join(rows) + ']\n'
 
 
+# ------------------------------------------------------------------ wrapper helper functions
+
+def wrap_helpers(src, names, wrapper):
+    """`template <class Problem> auto NAME(Problem &&p | Problem &p) { … }`  ->  which class template argument the
+    wrapper is instantiated with (`Prob` = holds a copy, `const Prob &` / `Prob &` = holds a reference), or which
+    other helper the call is forwarded to"""
+    out = []
+    for name in names:
+        ms = list(re.finditer(r'\bauto\s+' + name + r'\s*\(\s*(Problem\s*&&?)\s*p\s*\)\s*\{', src))
+        if len(ms) != 1:
+            raise TErr(f'{name}: expected exactly one definition `auto {name}(Problem &[&] p)`, found {len(ms)}')
+        m = ms[0]
+        ob = m.end() - 1
+        flat = re.sub(r'\s+', ' ', src[ob + 1:cp.match_brace(src, ob)]).strip()
+        param = re.sub(r'\s+', '', m.group(1))
+        mm = re.fullmatch(r'using Prob = std::remove_cvref_t<Problem>; using ProbWithCnt = (' + ID + r')<(const Prob ?&|Prob ?&|Prob)>; '
+                          r'return ProbWithCnt\{(std::forward<Problem>\(p\)|p)\};', flat)
+        if mm:
+            arg = re.sub(r'\s+', ' ', mm.group(2)).replace(' &', '&')
+            holds = '.value' if arg == 'Prob' else '.reference'
+            out.append(dict(name=name, wrapper=mm.group(1), holds=holds, arg=arg, param=param, fwd=None))
+            continue
+        mm = re.fullmatch(r'return (' + ID + r')\((std::forward<Problem>\(p\)|p)\);', flat)
+        if mm:
+            out.append(dict(name=name, wrapper=None, holds=None, arg='', param=param, fwd=mm.group(1)))
+            continue
+        raise TErr(f'{name}: unrecognised body {{ {flat} }}')
+    # resolve forwarding helpers
+    byname = {h['name']: h for h in out}
+    for h in out:
+        seen = set()
+        g = h
+        while g['fwd'] is not None:
+            if g['fwd'] in seen or g['fwd'] not in byname:
+                raise TErr(f'{h["name"]}: forwards to unknown helper {g["fwd"]}')
+            seen.add(g['fwd'])
+            g = byname[g['fwd']]
+        h['wrapper_res'], h['holds_res'], h['arg_res'] = g['wrapper'], g['holds'], g['arg']
+        if h['wrapper_res'] != wrapper:
+            raise TErr(f'{h["name"]}: constructs {h["wrapper_res"]}, expected {wrapper}')
+    # the wrapper stores what its template argument says: `Problem problem;`
+    body = struct_body(src, wrapper)
+    if not re.search(r'(?<![\w:])Problem\s+problem\s*;', body):
+        raise TErr(f'{wrapper}: member `Problem problem;` not found')
+    return out
+
+
+def emit_helpers(hs):
+    rows = [f'    {{ name := {lstr(h["name"])}, wrapper := {lstr(h["wrapper_res"])}, holds := {h["holds_res"]}, '
+            f'templateArg := {lstr(h["arg_res"])}, param := {lstr(h["param"])}, forwardsTo := {lopt(h["fwd"])} }}' for h in hs]
+    return ('/-- the helper functions that build a counting wrapper: which template argument `ProblemWithCounters<…>` /\n'
+            '    `ControlProblemWithCounters<…>` gets (`Prob`: the wrapper owns a copy; `const Prob&`: it aliases the caller\'s object) -/\n'
+            'def wrapHelpers : List HelperEntry := [\n' + ',\n'.join(rows) + ']\n')
+
+
+# ------------------------------------------------------------------ DLControlProblem's own projections
+
+SEG = r'(' + ID + r')\.segment\(([^(),]+), ([^(),]+)\)'
+
+
+def own_projections(cpp):
+    """constructor: `D = Box{get_nc()}; D_N = Box{get_nc_N()}; if (provides_get_D()) get_D(D); if (provides_get_D_N())
+    get_D_N(D_N); else if (COND) get_D(D_N);`   bodies of eval_proj_diff_g / eval_proj_multipliers: one loop over the
+    stages + the terminal segment"""
+    defs = dl_definitions(cpp, 'DLControlProblem')
+    ctors = [b for p, b in defs.get('DLControlProblem', []) if 'alpaqa_register_arg_t user_param' in p and 'so_filename' in p]
+    if len(ctors) != 1:
+        raise TErr('DLControlProblem: primary constructor not found')
+    flat = re.sub(r'\s+', ' ', ctors[0])
+    sizes = re.findall(r'\b(D|D_N) = Box\{([^{};]*)\};', flat)
+    fills = []
+    mm = re.search(r'if \(([^;{}]*?)\) (get_D(?:_N)?)\((D|D_N)\);\s*if \(([^;{}]*?)\) (get_D(?:_N)?)\((D|D_N)\);\s*'
+                   r'else if \(([^;{}]*?)\) (get_D(?:_N)?)\((D|D_N)\);', flat)
+    if not mm or len(sizes) != 2:
+        raise TErr('DLControlProblem constructor: the box initialisation (D, D_N sizes; get_D / get_D_N / fallback) '
+                   'is not of the recognised shape')
+    g = mm.groups()
+    fills = [(g[2], 'if', g[0], g[1]), (g[5], 'if', g[3], g[4]), (g[8], 'else if', g[6], g[7])]
+    n_box = len(re.findall(r'\bget_D(?:_N)?\(', flat))
+    if n_box != 3:
+        raise TErr(f'DLControlProblem constructor: {n_box} calls of get_D / get_D_N, the description knows 3')
+
+    def body(name):
+        lst = defs.get(name, [])
+        if len(lst) != 1:
+            raise TErr(f'DLControlProblem::{name}: expected one definition, found {len(lst)}')
+        return re.sub(r'\s+', ' ', lst[0][1]).strip()
+
+    def dims_of(fl):
+        md = re.search(r'const auto ((?:' + ID + r' = [^,;]+(?:, )?)+);', fl)
+        if not md:
+            raise TErr('own projection: dimension declaration not found')
+        return [tuple(x.strip() for x in d.split(' = ')) for d in md.group(1).split(', ')], fl[:md.start()] + fl[md.end():]
+
+    d1, r1 = dims_of(body('eval_proj_diff_g'))
+    m1 = re.fullmatch(r'\s*for \(index_t (' + ID + r') = 0; \1 < (' + ID + r'); \+\+\1\) e\.segment\(([^(),]+), ([^(),]+)\) = '
+                      r'projecting_difference\(z\.segment\(([^(),]+), ([^(),]+)\), (' + ID + r')\); '
+                      r'e\.segment\(([^(),]+), ([^(),]+)\) = projecting_difference\(z\.segment\(([^(),]+), ([^(),]+)\), (' + ID + r')\);\s*', r1)
+    if not m1:
+        raise TErr(f'DLControlProblem::eval_proj_diff_g: unrecognised body {{ {r1.strip()} }}')
+    a = m1.groups()
+    if (a[2], a[3]) != (a[4], a[5]) or (a[7], a[8]) != (a[9], a[10]):
+        raise TErr('DLControlProblem::eval_proj_diff_g: input and output segments differ')
+    diff = [dict(loop=(a[0], a[1]), off=a[2], len=a[3], box=a[6]), dict(loop=None, off=a[7], len=a[8], box=a[11])]
+    d2, r2 = dims_of(body('eval_proj_multipliers'))
+    r2 = r2.replace('using BoxConstr = BoxConstrProblem<config_t>;', '')
+    m2 = re.fullmatch(r'\s*for \(index_t (' + ID + r') = 0; \1 < (' + ID + r'); \+\+\1\) BoxConstr::eval_proj_multipliers_box\((' + ID +
+                      r'), y\.segment\(([^(),]+), ([^(),]+)\), M, 0\); BoxConstr::eval_proj_multipliers_box\((' + ID +
+                      r'), y\.segment\(([^(),]+), ([^(),]+)\), M, 0\);\s*', r2)
+    if not m2:
+        raise TErr(f'DLControlProblem::eval_proj_multipliers: unrecognised body {{ {r2.strip()} }}')
+    b = m2.groups()
+    mult = [dict(loop=(b[0], b[1]), off=b[3], len=b[4], box=b[2]), dict(loop=None, off=b[6], len=b[7], box=b[5])]
+    if d1 != d2:
+        raise TErr('DLControlProblem: the two projections declare different dimensions')
+    return dict(dims=d1, sizes=sizes, fills=fills, diff=diff, mult=mult)
+
+
+def fn_text(src, pattern, what):
+    """normalised body of the (single) function whose header matches `pattern`"""
+    ms = list(re.finditer(pattern, src))
+    if len(ms) != 1:
+        raise TErr(f'{what}: expected one definition, found {len(ms)}')
+    i = src.index('{', ms[0].end() - 1) if src[ms[0].end() - 1] != '{' else ms[0].end() - 1
+    return re.sub(r'\s+', ' ', src[i + 1:cp.match_brace(src, i)]).strip()
+
+
+def emit_ownproj(o):
+    def seg(r):
+        lp = 'none' if r['loop'] is None else f'(some ({lstr(r["loop"][0])}, {lstr(r["loop"][1])}))'
+        return f'{{ loop := {lp}, off := {lstr(r["off"])}, len := {lstr(r["len"])}, box := {lstr(r["box"])} }}'
+    return ('/-- `DLControlProblem`: the box initialisation of the constructor and the bodies of its own\n'
+            '    `eval_proj_diff_g` / `eval_proj_multipliers` (dl-problem.cpp) -/\n'
+            'def dlOCPProj : OwnProj where\n'
+            f'  dims := {llist(o["dims"], lambda p: f"({lstr(p[0])}, {lstr(p[1])})")}\n'
+            f'  boxSizes := {llist(o["sizes"], lambda p: f"({lstr(p[0])}, {lstr(p[1])})")}\n'
+            f'  boxFill := {llist(o["fills"], lambda p: f"({lstr(p[0])}, {lstr(p[1])}, {lstr(p[2])}, {lstr(p[3])})")}\n'
+            f'  diff := {llist(o["diff"], seg)}\n'
+            f'  mult := {llist(o["mult"], seg)}\n')
+
+
 def emit_abi(name, ms):
     rows = [f'    {{ name := {lstr(m["name"])}, ret := {lstr(m["ret"])}, params := ' +
             llist(m['params'], lambda p: f'({lstr(p[0])}, {lstr(p[1])})') +
@@ -781,14 +925,15 @@ def emit_abi(name, ms):
     return f'def {name} : List AbiMember := [\n' + ',\n'.join(rows) + ']\n'
 
 
-def emit_dl(name, cls, fwd, prov, steps, init, declared, reads, own):
+def emit_dl(name, cls, fwd, prov, steps, init, declared, reads, own, inline):
     L = [f'def {name} : DLTable where', f'  cls := {lstr(cls)}', '  fwd := [',
          ',\n'.join(emit_dlfwd(e) for e in fwd) + ']', '  prov := [',
          ',\n'.join(f'    {{ method := {lstr(n)}, test := {t} }}' for n, t in prov) + ']',
          '  ctor := [' + ', '.join(steps) + ']', '  init := [',
          ',\n'.join(emit_dlfwd(e) for e in init) + ']', f'  declared := {llist(declared)}',
          '  dataReads := ' + llist(reads, lambda p: f'({lstr(p[0])}, {lstr(p[1])})'),
-         f'  own := {llist(own)}']
+         f'  own := {llist(own)}',
+         '  inlineBodies := ' + llist(inline, lambda p: f'({lstr(p[0])}, {lstr(p[1])})')]
     return '\n'.join(L) + '\n'
 
 
@@ -866,6 +1011,20 @@ def main(out_path):
     regions['abi_data'] = {'nlp': dn, 'ocp': do}
     out.append(emit_dl('dlNLP', 'DLProblem', *dl_table(cpp, hpp, 'DLProblem', regions)))
     out.append(emit_dl('dlOCP', 'DLControlProblem', *dl_table(cpp, hpp, 'DLControlProblem', regions)))
+    out.append(emit_helpers(wrap_helpers(pwc, ['problem_with_counters', 'problem_with_counters_ref'], 'ProblemWithCounters') +
+                            wrap_helpers(ocp, ['ocproblem_with_counters', 'ocproblem_with_counters_ref'], 'ControlProblemWithCounters')))
+    op = own_projections(cpp)
+    out.append(emit_ownproj(op))
+    box_hpp = read(INC + 'problem/box.hpp')
+    bcp_hpp = read(INC + 'problem/box-constr-problem.hpp')
+    out.append('/-- body of `project(v, box)` (problem/box.hpp) -/\ndef boxProjectBody : String := ' +
+               lstr(fn_text(box_hpp, r'inline auto project\(const auto &v,[^)]*\)\s*\{', 'project')) + '\n')
+    out.append('/-- body of `projecting_difference(v, box)` (problem/box.hpp) -/\ndef boxProjDiffBody : String := ' +
+               lstr(fn_text(box_hpp, r'projecting_difference\(const auto &v,[^)]*\)\s*\{', 'projecting_difference')) + '\n')
+    out.append('/-- body of `BoxConstrProblem::eval_proj_multipliers_box(D, y, M, penalty_alm_split)` -/\n'
+               'def projMultipliersBoxBody : String := ' +
+               lstr(fn_text(bcp_hpp, r'static void eval_proj_multipliers_box\([^)]*\)\s*\{', 'eval_proj_multipliers_box')) + '\n')
+    regions['own_projections'] = {'hash': cp.ast_hash([op['dims'], op['sizes'], op['fills'], op['diff'], op['mult']])}
     m = re.search(r'struct\s+(?:[A-Z_]+\s+)?invalid_abi_error\s*:\s*(?:public\s+)?([\w:]+)', hpp)
     if not m:
         raise TErr('invalid_abi_error: base class not found')
